@@ -243,11 +243,14 @@ pub fn check_case(c: &Case) -> CheckResult {
                     // a lone undo point: only "state unchanged" is required
                     let got = cx.w.reps[0].tasks();
                     crate::ensure!(got == cx.state, "state-mismatch", "{when}: undoing a lone undo point changed tasks");
-                    let d = cx.w.reps[0].dump();
-                    if d.unsynced.len() == cx.log.len() - want_list.len() {
-                        cx.log.truncate(i);
-                    }
-                    cx.verify(&when)?;
+                    // the supplied operations are the most recent unsynchronized ones, so they
+                    // are removed (whatever the call returns); otherwise repeated undo could
+                    // never get past an empty segment
+                    cx.log.truncate(i);
+                    cx.verify(&when).map_err(|mut f| {
+                        f.signature = format!("lone-undo-point:{}", f.signature);
+                        f
+                    })?;
                     rep.class("lone-undo-point");
                 } else {
                     crate::ensure!(
@@ -358,7 +361,7 @@ pub fn check_case(c: &Case) -> CheckResult {
 
 pub fn run(e: &Engine) {
     e.assume("operation sequences are valid and recorded through Replica::get_task_data / TaskData::{create,update,delete}");
-    e.assume("a segment consisting of a lone undo point is generated but only 'tasks unchanged' is asserted for it");
+    e.assume("for a segment consisting of a lone undo point the return value is not asserted (the code reports false), but the marker must be removed so that repeated undo makes progress");
     e.campaign(
         "undo-histories",
         "1-13 actions from commit (with/without leading undo point; sets with unique values, removals, deletes of populated tasks, creates), undo, stale undo, undo after sync, sync; on both storages; model = operation log with the state before each operation; non-trivial = an undone segment contained a delete of a populated task or a property removal, or the undo was second-level or followed a sync",
